@@ -11,6 +11,7 @@ def run(facts, tier):
         ("density rules", Q.density_rules, 6, "dimension guard dominates modification; n_/num_retained_ updated exactly once; compaction accounts every point; estimate weights"),
         ("iterator", lambda fa: Q.iterator_rules(fa, ("density/",)), 3, "iterator constructor couples level and height like operator++"),
         ("compaction loop", lambda fa: [o for o in Q.compaction_triggers(fa) if o["key"].startswith("density")], 2, "compaction repeats while num_retained_ >= k * levels"),
+        ("levels grow only", lambda fa: [o for o in Q.level_growth(fa) if o["key"].startswith("density_sketch")], 2, "the vector of levels only grows in mutators (push_back under a size test); no resize/erase/clear can drop levels with their points"),
         ("couplings", lambda fa: cowrite.obligations(fa, ['density_sketch']), 2, "fields that every mutator updates together (counters, extremes, cached values) are still updated together"),
         ("tautologies", lambda fa: generic_lints.tautologies(fa, ('density/',)), 2, "no comparison / assignment / min-max with two identical operands, no if-else with identical arms"),
         ("duplicate operands", lambda fa: generic_lints.duplicate_conjuncts(fa, ('density/',)), 2, "no logical chain tests the same operand twice (copy-paste of the wrong peer)"),
